@@ -361,3 +361,102 @@ pub fn rgb_vec_to_hex(f: &str, v: &Vec<(i32, i32, i32)>) -> (r: Vec<String>)
         f@ == hex_fmt() ==> forall|i: int| #![trigger r@[i]] 0 <= i < v@.len() && 0 <= v@[i].0 <= 255 && 0 <= v@[i].1 <= 255 && 0 <= v@[i].2 <= 255
             ==> r@[i]@ == hex6(v@[i].0 as int, v@[i].1 as int, v@[i].2 as int),
 { unimplemented!() /* original expression: v.iter().map(|&(r, g, b)| format!(f, r, g, b)).collect() */ }
+
+// ---- CharOpts::update_from_map: applying the string map pair by pair equals reading it by key text ----
+/// the order in which a given HashMap value yields its entries (a function of the concrete map, not of its view)
+pub uninterp spec fn hm_pairs(m: HashMap<String, String>) -> Seq<(String, String)>;
+/// `for (key, value) in MAP` (HashMap::into_iter by value) -- TRUSTED (std): yields every entry exactly once, in some order
+#[verifier::external_body]
+pub fn hm_into_pairs(m: HashMap<String, String>) -> (r: Vec<(String, String)>)
+    ensures
+        r@ == hm_pairs(m),
+        forall|i: int| #![trigger r@[i]] 0 <= i < r@.len() ==> m@.contains_key(r@[i].0) && m@[r@[i].0] == r@[i].1,
+        forall|k: String| #![trigger m@.contains_key(k)] m@.contains_key(k) ==> exists|i: int| #![trigger r@[i]] 0 <= i < r@.len() && r@[i].0 == k,
+{ m.into_iter().collect() }
+/// `V.parse().unwrap_or(false)` at type bool -- TRUSTED (std): exactly "true" parses to true, everything else gives false
+#[verifier::external_body]
+pub fn parse_bool_or_false(v: &String) -> (r: bool)
+    ensures r == (v@ == s_true())
+{ v.parse().unwrap_or(false) }
+
+pub open spec fn apply_one(a: Cell, k: Seq<char>, v: Seq<char>) -> Cell {
+    if k == k_data() { Cell { data: v, ..a } } else if k == k_fg() { Cell { fg: v, ..a } } else if k == k_bg() { Cell { bg: v, ..a } }
+    else if k == k_bold() { Cell { bold: v == s_true(), ..a } } else if k == k_italics() { Cell { italics: v == s_true(), ..a } }
+    else if k == k_underscore() { Cell { underscore: v == s_true(), ..a } }
+    else if k == k_strikethrough() { Cell { strikethrough: v == s_true(), ..a } }
+    else if k == k_reverse() { Cell { reverse: v == s_true(), ..a } } else if k == k_blink() { Cell { blink: v == s_true(), ..a } }
+    else { a }
+}
+pub open spec fn apply_pairs(ps: Seq<(String, String)>, n: int, a: Cell) -> Cell
+    decreases n
+{
+    if n <= 0 { a } else { apply_one(apply_pairs(ps, n - 1, a), ps[n - 1].0@, ps[n - 1].1@) }
+}
+/// the value of the last of the first n pairs whose key reads `key`
+pub open spec fn plookup(ps: Seq<(String, String)>, n: int, key: Seq<char>) -> Option<Seq<char>>
+    decreases n
+{
+    if n <= 0 { None } else if ps[n - 1].0@ == key { Some(ps[n - 1].1@) } else { plookup(ps, n - 1, key) }
+}
+pub open spec fn apply_lookup(ps: Seq<(String, String)>, n: int, a: Cell) -> Cell {
+    Cell {
+        data: pick(plookup(ps, n, k_data()), a.data), fg: pick(plookup(ps, n, k_fg()), a.fg), bg: pick(plookup(ps, n, k_bg()), a.bg),
+        bold: pickb(plookup(ps, n, k_bold()), a.bold), italics: pickb(plookup(ps, n, k_italics()), a.italics),
+        underscore: pickb(plookup(ps, n, k_underscore()), a.underscore), strikethrough: pickb(plookup(ps, n, k_strikethrough()), a.strikethrough),
+        reverse: pickb(plookup(ps, n, k_reverse()), a.reverse), blink: pickb(plookup(ps, n, k_blink()), a.blink),
+    }
+}
+pub proof fn lemma_apply_pairs_lookup(ps: Seq<(String, String)>, n: int, a: Cell)
+    requires 0 <= n <= ps.len(),
+    ensures apply_pairs(ps, n, a) == apply_lookup(ps, n, a),
+    decreases n
+{
+    lemma_keys_distinct();
+    if n > 0 { lemma_apply_pairs_lookup(ps, n - 1, a); }
+}
+pub proof fn lemma_plookup_sound(ps: Seq<(String, String)>, n: int, key: Seq<char>)
+    requires 0 <= n <= ps.len(),
+    ensures
+        plookup(ps, n, key).is_some() ==> exists|j: int| #![trigger ps[j]] 0 <= j < n && ps[j].0@ == key && plookup(ps, n, key) == Some(ps[j].1@),
+        plookup(ps, n, key).is_none() ==> forall|j: int| #![trigger ps[j]] 0 <= j < n ==> ps[j].0@ != key,
+    decreases n
+{
+    if n > 0 {
+        lemma_plookup_sound(ps, n - 1, key);
+        if ps[n - 1].0@ == key { assert(plookup(ps, n, key) == Some(ps[n - 1].1@)); }
+    }
+}
+/// the pairs of a map (each entry once) read by key text give what the map gives
+pub proof fn lemma_pairs_are_map(m: Map<String, String>, ps: Seq<(String, String)>, key: Seq<char>)
+    requires
+        forall|i: int| #![trigger ps[i]] 0 <= i < ps.len() ==> m.contains_key(ps[i].0) && m[ps[i].0] == ps[i].1,
+        forall|k: String| #![trigger m.contains_key(k)] m.contains_key(k) ==> exists|i: int| #![trigger ps[i]] 0 <= i < ps.len() && ps[i].0 == k,
+    ensures plookup(ps, ps.len() as int, key) == mget(m, key)
+{
+    reveal(mget);
+    lemma_plookup_sound(ps, ps.len() as int, key);
+    if mhas(m, key) {
+        let k = mkey(m, key);
+        let i = choose|i: int| #![trigger ps[i]] 0 <= i < ps.len() && ps[i].0 == k;
+        assert(ps[i].0@ == key);
+        assert(plookup(ps, ps.len() as int, key).is_some());
+        let j = choose|j: int| #![trigger ps[j]] 0 <= j < ps.len() && ps[j].0@ == key && plookup(ps, ps.len() as int, key) == Some(ps[j].1@);
+        axiom_string_ext(ps[j].0, k);
+    } else {
+        if plookup(ps, ps.len() as int, key).is_some() {
+            let j = choose|j: int| #![trigger ps[j]] 0 <= j < ps.len() && ps[j].0@ == key && plookup(ps, ps.len() as int, key) == Some(ps[j].1@);
+            assert(m.contains_key(ps[j].0));
+        }
+    }
+}
+pub proof fn lemma_pairs_apply_map(m: Map<String, String>, ps: Seq<(String, String)>, a: Cell)
+    requires
+        forall|i: int| #![trigger ps[i]] 0 <= i < ps.len() ==> m.contains_key(ps[i].0) && m[ps[i].0] == ps[i].1,
+        forall|k: String| #![trigger m.contains_key(k)] m.contains_key(k) ==> exists|i: int| #![trigger ps[i]] 0 <= i < ps.len() && ps[i].0 == k,
+    ensures apply_pairs(ps, ps.len() as int, a) == apply_map(m, a)
+{
+    lemma_apply_pairs_lookup(ps, ps.len() as int, a);
+    lemma_pairs_are_map(m, ps, k_data()); lemma_pairs_are_map(m, ps, k_fg()); lemma_pairs_are_map(m, ps, k_bg());
+    lemma_pairs_are_map(m, ps, k_bold()); lemma_pairs_are_map(m, ps, k_italics()); lemma_pairs_are_map(m, ps, k_underscore());
+    lemma_pairs_are_map(m, ps, k_strikethrough()); lemma_pairs_are_map(m, ps, k_reverse()); lemma_pairs_are_map(m, ps, k_blink());
+}
